@@ -133,7 +133,7 @@ class Cluster
         // from each cluster in this way, since they may now be part of some
         // new set.
         std::set<ShapePair> m_cluster_cluster_overlap_exceptions;
-        std::map<unsigned, Cluster *> m_overlap_replacement_map;
+        std::map<unsigned, std::vector<Cluster *> > m_overlap_replacement_map;
         std::set<unsigned> m_nodes_replaced_with_clusters;
 
     private:
